@@ -294,7 +294,10 @@ def check_content(case):
     with contextlib.ExitStack() as stack:
         tmp = sq.tmpdir_for(case)
         tmpdir = stack.enter_context(tmp) if tmp is not None else None
-        w = sq.write(case, tmpdir=tmpdir)
+        try:
+            w = sq.write(case, tmpdir=tmpdir)
+        except sq.Refused:
+            return [*labs, "non-ascii-text:refused"], False
         dec = decode_checked(w)
         blocks = dec["blocks"]
         calls = set(case["calls"])
@@ -344,7 +347,10 @@ def check_reader(case):
     with contextlib.ExitStack() as stack:
         tmp = sq.tmpdir_for(case)
         tmpdir = stack.enter_context(tmp) if tmp is not None else None
-        w = sq.write(case, tmpdir=tmpdir)
+        try:
+            w = sq.write(case, tmpdir=tmpdir)
+        except sq.Refused:
+            return [*labs, "non-ascii-text:refused"], False
         dec = decode_checked(w)
         calls = set(case["calls"])
         nruns = len(case["runs"]) if "pix" in calls else 0
